@@ -187,80 +187,82 @@ pub fn explore<S: Sut>(
             break;
         }
         st.depth = d + 1;
-        // expand in parallel; results are merged sequentially in frontier order (deterministic)
-        let expanded: Vec<Vec<(S, Vec<S::V>, Vec<Act<S::V>>, Option<(String, String, String)>)>> = frontier
-            .par_iter()
-            .map(|(col, model, path)| {
-                let mut out = vec![];
-                for a in actions(model.len(), &dom, max_len) {
-                    let mut m2 = model.clone();
-                    // the model decides validity: out-of-range edits are not part of the alphabet
-                    let valid = match &a {
-                        Act::Pop => true,
-                        Act::Truncate(_) => true,
-                        _ => true,
-                    };
-                    if !valid {
+        // the frontier is processed in chunks (expanded in parallel, merged sequentially in frontier
+        // order, so the exploration is deterministic) to bound the memory held by undeduplicated successors
+        let mut next = vec![];
+        for chunk in frontier.chunks(1024) {
+            if rep.saturated() {
+                break;
+            }
+            let expanded: Vec<Vec<(S, Vec<S::V>, Vec<Act<S::V>>, Option<(String, String, String)>)>> = chunk
+                .par_iter()
+                .map(|(col, model, path)| {
+                    let mut out = vec![];
+                    for a in actions(model.len(), &dom, max_len) {
+                        let mut m2 = model.clone();
+                        apply_model(&mut m2, &a);
+                        let mut c2 = col.clone();
+                        let mut p2 = path.clone();
+                        p2.push(a.clone());
+                        let r = guard(|| c2.apply(&a));
+                        match r {
+                            Ok(Err(())) => continue,
+                            Ok(Ok(())) => {}
+                            Err(p) => {
+                                out.push((col.clone(), m2, p2, Some(("panic".to_string(), format!("{}:{}", S::name(), p.location), p.message))));
+                                continue;
+                            }
+                        }
+                        // cheap per-transition oracle: contents and structural invariants
+                        let r = guard(|| {
+                            c2.invariants();
+                            c2.values()
+                        });
+                        match r {
+                            Ok(v) if v == m2 => out.push((c2, m2, p2, None)),
+                            Ok(v) => {
+                                let detail = format!("after {:?} the column holds {:?}, a Vec holds {:?}", a, v, m2);
+                                out.push((c2, m2, p2, Some(("column==vec".to_string(), format!("{}:{}", S::name(), act_name(&a)), detail))));
+                            }
+                            Err(p) => out.push((c2, m2, p2, Some(("panic".to_string(), format!("{}:{}", S::name(), p.location), p.message)))),
+                        }
+                    }
+                    out
+                })
+                .collect();
+            let mut fresh = vec![];
+            for group in expanded {
+                for (c2, m2, p2, err) in group {
+                    st.transitions += 1;
+                    if let Some((oracle, site, detail)) = err {
+                        fail(&oracle, site, detail, &p2);
                         continue;
                     }
-                    apply_model(&mut m2, &a);
-                    let mut c2 = col.clone();
-                    let mut p2 = path.clone();
-                    p2.push(a.clone());
-                    let r = guard(|| c2.apply(&a));
-                    match r {
-                        Ok(Err(())) => continue,
-                        Ok(Ok(())) => {}
-                        Err(p) => {
-                            out.push((col.clone(), m2, p2, Some(("panic".to_string(), format!("{}:{}", S::name(), p.location), p.message))));
-                            continue;
-                        }
+                    let key = (m2.clone(), c2.layout());
+                    if seen.insert(key) {
+                        st.states += 1;
+                        st.max_slabs = st.max_slabs.max(c2.layout().len());
+                        fresh.push((c2, m2, p2));
                     }
-                    // cheap per-transition oracle: contents and structural invariants
-                    let r = guard(|| {
-                        c2.invariants();
-                        c2.values()
-                    });
-                    match r {
-                        Ok(v) if v == m2 => out.push((c2, m2, p2, None)),
-                        Ok(v) => {
-                            let detail = format!("after {:?} the column holds {:?}, a Vec holds {:?}", a, v, m2);
-                            out.push((c2, m2, p2, Some(("column==vec".to_string(), format!("{}:{}", S::name(), act_name(&a)), detail))));
-                        }
-                        Err(p) => out.push((c2, m2, p2, Some(("panic".to_string(), format!("{}:{}", S::name(), p.location), p.message)))),
-                    }
-                }
-                out
-            })
-            .collect();
-        let mut next = vec![];
-        for group in expanded {
-            for (c2, m2, p2, err) in group {
-                st.transitions += 1;
-                if let Some((oracle, site, detail)) = err {
-                    fail(&oracle, site, detail, &p2);
-                    continue;
-                }
-                let key = (m2.clone(), c2.layout());
-                if seen.insert(key) {
-                    st.states += 1;
-                    st.max_slabs = st.max_slabs.max(c2.layout().len());
-                    next.push((c2, m2, p2));
                 }
             }
-        }
-        // the read battery on every new distinct state, in parallel
-        let errs: Vec<(usize, (String, String))> = next
-            .par_iter()
-            .enumerate()
-            .filter_map(|(i, (c, m, p))| match guard(|| per_state(c, m, p)) {
-                Ok(Ok(())) => None,
-                Ok(Err(e)) => Some((i, e)),
-                Err(pn) => Some((i, (format!("panic@{}", pn.location), pn.message))),
-            })
-            .collect();
-        for (i, (site, detail)) in errs {
-            fail(if prop == "C35" { "encoding-round-trip" } else { "column==vec" }, format!("{}:{}", name, site), detail, &next[i].2);
+            // the read battery on every new distinct state, in parallel
+            let errs: Vec<(usize, (String, String))> = fresh
+                .par_iter()
+                .enumerate()
+                .filter_map(|(i, (c, m, p))| match guard(|| per_state(c, m, p)) {
+                    Ok(Ok(())) => None,
+                    Ok(Err(e)) => Some((i, e)),
+                    Err(pn) => Some((i, (format!("panic@{}", pn.location), pn.message))),
+                })
+                .collect();
+            for (i, (site, detail)) in errs {
+                fail(if prop == "C35" { "encoding-round-trip" } else { "column==vec" }, format!("{}:{}", name, site), detail, &fresh[i].2);
+            }
+            // states at the last level are not expanded: keep only what the next level needs
+            if d + 1 < depth {
+                next.extend(fresh);
+            }
         }
         frontier = next;
     }
@@ -949,7 +951,7 @@ fn c35_state<S: Sut>(c: &S, m: &[S::V], _p: &[Act<S::V>]) -> Result<(), (String,
 fn configs(args: &Args) -> Vec<(usize, usize, usize)> {
     // (max_segments, depth, max_len)
     if args.tier == "thorough" {
-        vec![(2, 5, 8), (3, 5, 9), (4, 5, 10), (8, 4, 12)]
+        vec![(2, 4, 7), (3, 4, 8), (4, 4, 9), (8, 4, 10)]
     } else {
         vec![(2, 3, 6), (4, 3, 8)]
     }
@@ -1001,7 +1003,7 @@ fn run(args: &Args, prop: &str) -> i32 {
     };
     // a replay re-runs the (deterministic) exploration of the one type and configuration
     let results: Vec<TypeResult> = jobs
-        .par_iter()
+        .iter()
         .filter(|(n, _)| replay_type.as_ref().map(|(t, _)| t == n).unwrap_or(true))
         .flat_map(|(_, j)| j())
         .collect();
